@@ -217,6 +217,7 @@ type runner struct {
 	deferred map[int]bool // deferred storage not created yet (as far as the harness knows)
 	deleted  map[int]bool // Delete returned nil
 	stepNo   int
+	failed   bool
 }
 
 func (x *runner) replayObj() any {
@@ -225,6 +226,9 @@ func (x *runner) replayObj() any {
 
 func (x *runner) violate(key, format string, a ...any) {
 	x.rep.Violate(key, fmt.Sprintf(format, a...)+fmt.Sprintf(" [behaviour %s step %d]", x.b.name, x.stepNo), x.replayObj())
+	if !strings.HasPrefix(key, "ObserverSawUncommitted:") {
+		x.failed = true // objects in a state the property forbids: the rest of the behaviour is not executed
+	}
 }
 
 var (
@@ -296,6 +300,9 @@ func opLabel(s step, x *runner) string {
 	l := s.Kind
 	if s.Kind == "local" && s.Snap {
 		l = "local-snapshot"
+	}
+	if s.Kind == "localv" && s.Snap {
+		l = "localv-snapshot"
 	}
 	if (s.Kind == "local" || s.Kind == "remote") && x.deferred[s.T] {
 		l += "-deferred"
@@ -410,6 +417,7 @@ func (x *runner) stepReopen(s step) error {
 }
 
 var errAbandon = errors.New("behaviour abandoned after a violation")
+var errRejected = errors.New("verif: validator rejects the change")
 
 // stepOp runs one operation with its fault plan and evaluates the oracles.
 func (x *runner) stepOp(s step) error {
@@ -482,6 +490,15 @@ func (x *runner) stepOp(s step) error {
 			if err == nil && (len(res.Added) != 1 || res.Added[0].Id != raw.Id) {
 				x.drift("AddContent produced another change than PrepareChange")
 			}
+			return err
+		}
+	case "localv":
+		// AddContentWithValidator whose validator rejects: nothing may change, in storage or in memory
+		content := x.r.content("L", s.Snap)
+		do = func() error {
+			tree.Lock()
+			defer tree.Unlock()
+			_, err := tree.AddContentWithValidator(ctx, content, func(objecttree.StorageChange) error { return errRejected })
 			return err
 		}
 	case "remote":
@@ -606,7 +623,7 @@ func (x *runner) stepOp(s step) error {
 	if opErr != nil && cur.key() != pre.key() {
 		x.violate("Atomic:failed-op-changed-disk:"+where, "operation failed (%v) but the durable state changed: %s", opErr, diffState(pre, cur, x))
 	}
-	if opErr != nil && !hit && !errors.Is(opErr, errInjected) {
+	if opErr != nil && !hit && !errors.Is(opErr, errInjected) && !errors.Is(opErr, errRejected) {
 		if s.Retry {
 			x.violate("RetrySucceeds:"+label, "re-issued operation is refused: %v", opErr)
 		} else if s.Res != "refused" {
@@ -932,7 +949,10 @@ func (x *runner) compareMem(s step) {
 		}
 		live.Lock()
 		heads := x.specIds(live.Heads())
-		root := x.specOf[live.Root().Id]
+		root := 0
+		if r := live.Root(); r != nil {
+			root = x.specOf[r.Id]
+		}
 		live.Unlock()
 		if fmt.Sprint(heads) != fmt.Sprint(sortedInts(tp.Hs)) {
 			x.drift("live heads of tree %d %v, spec %v", t, heads, tp.Hs)
@@ -1102,7 +1122,9 @@ func TestReplay(t *testing.T) {
 					}()
 					return x.run()
 				}()
-				if err != nil && !errors.Is(err, errAbandon) {
+				// after a violation the objects may be unusable (e.g. a wiped tree): whatever goes wrong
+				// in the rest of that behaviour is not the harness being broken
+				if err != nil && !errors.Is(err, errAbandon) && !x.failed {
 					mu.Lock()
 					broken = append(broken, err.Error())
 					mu.Unlock()
